@@ -2,8 +2,9 @@ import Chewing.Proofs.TrieBufHist
 /-!
 The snapshot-adoption path of a file-backed `TrieBuf` (sequential writer).
 
-`Settled s`: nothing pending and no tombstone — every entry lives in the adopted snapshot.  Such a
-state is outside the known-finding class of prefix lookups (`fuzzyClass`), so every answer is exact.
+`Settled s`: nothing pending and no tombstone — every entry lives in the adopted snapshot.  (Until fix
+097161a, F36, such a state was the only one in which a prefix lookup was guaranteed to be the map's; now
+every state is, and `Settled` only serves the durability links of C10 / C08.)
 `Quiet` is the extra invariant that makes adoption predictable: a dictionary that is not dirty and has
 no writer in flight has nothing pending (its content is the file's).  With it,
 `reopen; flush; reopen` (drain a writer that may be in flight, snapshot, adopt) always ends in a
@@ -19,9 +20,6 @@ open Trie
 def Settled (s : State) : Prop := s.btree = [] ∧ s.grave = []
 
 instance (s : State) : Decidable (Settled s) := by unfold Settled; infer_instance
-
-theorem settled_not_fuzzyClass {s : State} (h : Settled s) (q : Key) : fuzzyClass s q = false := by
-  simp [fuzzyClass, h.1, h.2]
 
 /-- not dirty and no writer in flight ⇒ nothing pending -/
 def Quiet (s : State) : Prop := s.dirty = false → s.inflight = none → Settled s
